@@ -58,9 +58,54 @@ def run(tier):
                                 'object file has writable data symbol `%s` that the AST census did not classify' % unknown[0], cfgname=cfgname)
                 else:
                     chk.ok('R1.nm', rel + '@' + cfgname, nontrivial=bool(extra))
+    init_rule(chk, Program.load(which=('SRC',), cfg='tested'))
     chk.samples.append('positive control fixtures/r1_static_state.c -> reported mutable: calls, work (expected)')
     return chk.finish()
 
 
 def _known_readonly(cen, sym):
     return False
+
+
+# Work arrays that the factorization reads before it writes them.  They are carved from a caller workspace (arbitrary previous
+# contents) or from malloc, so the routine that hands them out must initialise them, otherwise a call depends on what the memory
+# was used for before (history dependence).  Instances confirmed by reading; one line of reason each.
+INIT_TABLE = [
+    # (function pattern with ? = precision, array expression (canonical, no ids), reason)
+    ('?SetRWork', '(*dense)', 'SPA of the panel: the numeric kernels assume zeros outside the current pattern'),
+    ('?SetRWork', '(*tempv)', 'temporary vectors of the BLAS-2/3 updates are accumulated into'),
+    ('SetIWork', '(*repfnz)', 'first-nonzero markers are tested against SLU_EMPTY before being set'),
+    ('SetIWork', '(*panel_lsub)', 'panel row lists are tested against SLU_EMPTY'),
+    ('?gstrf', 'marker', 'marker arrays are compared with the current column before being set'),
+    ('?gstrf', 'perm_r', 'rows without a pivot are recognised by SLU_EMPTY after the loop'),
+    ('?gsitrf', 'marker', 'as ?gstrf'),
+    ('?gsitrf', 'perm_r', 'as ?gstrf'),
+]
+
+
+def init_rule(chk, prog):
+    from ..facts import strip, callee_name, canon, loc
+    cid = 'R1.v'
+    chk.clause(cid, 'work arrays initialised by the routine that hands them out')
+    for (pat, arr, why) in INIT_TABLE:
+        names = [pat.replace('?', p) for p in 'sdcz'] if '?' in pat else [pat]
+        for nm in names:
+            f = prog.func(nm)
+            if f is None:
+                raise AnalysisBroken('C09 init rule: %s not found' % nm)
+            ok = False
+            for x in f.body.walk():
+                if x.k == 'Call' and callee_name(x) in ('ifill', 'sfill', 'dfill', 'cfill', 'zfill', 'memset') and len(x.c) > 1:
+                    if canon(x.c[1], ids=False) == arr:
+                        ok = True
+                if x.k == 'For':
+                    for y in x.c[3].walk():
+                        if y.k == 'Assign' and strip(y.c[0]).k == 'Index' and canon(strip(y.c[0]).c[0], ids=False) == arr and strip(y.c[1]).k in ('Int', 'Float', 'Ref'):
+                            ok = True
+            inst = '%s:%s' % (nm, arr)
+            if ok:
+                chk.ok(cid, inst, sample=why)
+            else:
+                chk.violate(cid, inst, loc(f, f.body), nm,
+                            '%s hands out / uses the work array %s without initialising it (%s): with a caller workspace or recycled heap memory the result then depends on '
+                            'what the memory held before' % (nm, arr, why))
